@@ -302,6 +302,7 @@ def judge_filters_follow_the_table():
     T = default_table()
     bad = []
     for label, moved_name, new_id in (('lookup-moved-into-the-bsd-class', 'VFS_LOOKUP', 0x40c0ff0), ('getpid-moved-into-the-file-system-class', 'BSC_getpid', 0x3010050),
+                                      ('lookup-moved-within-the-file-system-class', 'VFS_LOOKUP', 0x3020090),
                                       ('nothing-moved', None, None)):
         T2 = dict(T)
         ids = {n: E.n2i(n) for n in ('BSC_open', 'VFS_LOOKUP', 'BSC_getpid')}
